@@ -409,6 +409,16 @@ func c17Run(c *caseCtx) (res caseResult) {
 			conn.Close()
 			res.violate("after Remote.Stop().Wait() the node still accepts inbound connections on %s", a2)
 		}
+		// one more Start on the stopped remote: if it is refused (it is today), the node stays closed
+		if err := cur.rem.Start(cur.eng); err != nil {
+			if conn, err := net.DialTimeout("tcp", a2, 2*time.Second); err == nil {
+				conn.Close()
+				res.violate("Remote.Start on a stopped remote was refused, yet afterwards the node accepts inbound connections on %s again (nobody serves them)", a2)
+			}
+		} else {
+			res.count("restartable_remote", 1)
+			cur.rem.Stop().Wait()
+		}
 		// the loss of the peer is reported
 		if !waitFor(wd, func() bool { return unreachableCount(n1.mon, a2) > before }) {
 			close(stopBg)
